@@ -15,7 +15,7 @@ from gen import Gen, TYPE_WORDS
 import l2
 import c10_syntax as syn
 
-NEEDS = ("runner",)
+NEEDS = ("runner", "cli")
 TRUSTED = [
     "C10 oracles: CPython's parser for Python; for TypeScript/Kotlin/Swift/Scala/Go the hand-written tokenisers and "
     "recursive-descent recognisers of tools/c10_syntax.py (the declaration subset typeshare emits, NOT the vendors' grammars; "
@@ -472,6 +472,47 @@ def judge(check, case, ans, lexok):
     return bad
 
 
+ON_DISK_SRC = "#[typeshare]\npub struct Holder { pub unit: (), pub name: String }\n\n#[typeshare]\n#[serde(tag = \"t\", content = \"c\")]\npub enum Shape { Dot, Line(u32), Box { w: u8 } }\n"
+ON_DISK_LONG = "#[typeshare]\npub struct HolderWithAVeryLongNameIndeed { pub unit: (), pub a_rather_long_field_name: String, pub another_one: Vec<Option<String>> }\n\n" + ON_DISK_SRC
+
+
+def files_on_disk_part(check):
+    """well-formedness is a property of the *files*: every file the binary leaves behind - also over a destination that already
+    holds an earlier, longer or equally long output, and Swift's `Codable.swift` after the configuration changed between two runs
+    into the same folder - is recognised and equals what a run into a fresh destination writes"""
+    for lang in LANGS:
+        prob = dirty_destination(check, "c10", lang, {"src/lib.rs": ON_DISK_SRC}, earlier_sources={"src/lib.rs": ON_DISK_LONG})
+        if prob:
+            rej, _ = syn.check(lang, prob["file_after_run"] or "")
+            check.violation("%s: written over an existing file (%s) the output %s" % (lang, prob["state"],
+                            "is not well-formed: " + rej.describe() if rej is not None else "is not the file a fresh run writes"),
+                            case=prob, impl=prob["file_after_run"], model=prob["fresh_run"], failing_input=True)
+            return
+    # Swift's helper module: three configurations of decreasing / equal / increasing length, run one after the other into one folder
+    seqs = [[["Equatable", "Hashable", "Sendable"], [], ["Sendable"]], [["Sendable"], ["Hashable"], ["Equatable", "Hashable"]]]
+    for seq in seqs:
+        with Scratch() as sc:
+            sc.write("ws/alpha/src/lib.rs", ON_DISK_SRC)
+            for step, constraints in enumerate(seq):
+                sc.write("ws/typeshare.toml", "[swift]\ncodablevoid_constraints = [%s]\n" % ", ".join('"%s"' % c for c in constraints))
+                r = run_cli(["--lang", "swift", "-d", sc.path("out"), "-c", sc.path("ws/typeshare.toml"), sc.path("ws")], cwd=sc.path("ws"))
+                rf = run_cli(["--lang", "swift", "-d", sc.path("fresh%d" % step), "-c", sc.path("ws/typeshare.toml"), sc.path("ws")], cwd=sc.path("ws"))
+                check.saw(("codable-sequence", json.dumps(seq), step), nontrivial=True)
+                check.count("codable-sequence-step")
+                if r["rc"] != 0 or rf["rc"] != 0:
+                    continue
+                for fn in sorted(os.listdir(sc.path("fresh%d" % step))):
+                    want = open(os.path.join(sc.path("fresh%d" % step), fn), encoding="utf-8").read()
+                    got = open(os.path.join(sc.path("out"), fn), encoding="utf-8").read() if os.path.exists(os.path.join(sc.path("out"), fn)) else None
+                    rej = syn.check("swift", got)[0] if got is not None else None
+                    if got != want or rej is not None:
+                        check.violation("swift -d: after %d run(s) into one folder with codablevoid_constraints %s, %s %s"
+                                        % (step + 1, seq[:step + 1], fn, "is not well-formed: " + rej.describe() if rej is not None
+                                           else "is not the file a fresh folder gets"),
+                                        case={"constraint_sequence": seq[:step + 1], "source": ON_DISK_SRC}, impl=got, model=want, failing_input=True)
+                        return
+
+
 def run(check):
     rng = check.rng
     per_lang = 20000 if check.thorough else 1800
@@ -537,6 +578,8 @@ def run(check):
     replay_witnesses(check)
     replay_repaired(check)
     replay_not_full(check)
+    if not check.violations:
+        files_on_disk_part(check)
     check.assumptions += [
         "partial strength: the Lean theorems prove lexical well-formedness (comments, string literals and brackets closed: `wellBracketed`), the "
         "keyword-escaping promises of Swift and Python and the leading-digit rule on the model; conformance to the declaration grammar is CHECKED "
